@@ -210,7 +210,16 @@ def run_case(rng, tier, case):
             with attach.paused(), env.quiet():
                 for j in range(S + 1):
                     prj = {q: np.asarray(v, float) for q, v in allp[j].items()}
-                    opj = P.setup_optim_problem(prj, tg, fix_time_window={'I': np.arange(T) < k, 'x': xk.copy()})
+                    fwI = np.arange(T) < k
+                    if k >= 1 and rng.random() < 0.5:
+                        # the present given as a date: the last present grid point (all steps up to and including it are fixed) - zone-aware grids: the
+                        # same instant quoted in the grid's zone or in another one
+                        dpt = pd.Timestamp(tg.timepoints[k - 1])
+                        if dpt.tzinfo is not None and rng.random() < 0.6:
+                            dpt = dpt.tz_convert(gen.pick(rng, ['UTC', 'Asia/Kolkata', 'America/New_York']))
+                        fwI = dpt if rng.random() < 0.5 else dpt.to_pydatetime()
+                        case.feature('present_fixed_by_date')
+                    opj = P.setup_optim_problem(prj, tg, fix_time_window={'I': fwI, 'x': xk.copy()})
                     rj = opj.optimize()
                     if isinstance(rj, str):
                         vals = None; break
